@@ -4,7 +4,7 @@
 //! register bits after every step is written as a trace, to be compared between builds by TLC.
 
 use glam::*;
-use hx::chain_gen::{step, Regs};
+use hx::chain_gen::{ill_conditioned, step, Regs};
 use hx::*;
 use serde_json::{json, Value};
 use std::io::Write;
@@ -96,6 +96,7 @@ fn main() {
         rep.nontrivial += 1;
         if rep.samples.len() < 3 && n % 7001 == 1 { rep.samples.push(c.clone()); }
         let mut r = init(c["seed"].as_u64().unwrap());
+        let mut loose = false;          // an ill-conditioned step was taken: the tolerance comparison between backends is suspended
         for (k, st) in c["chain"].as_array().unwrap().iter().enumerate() {
             let op = st["op"].as_str().unwrap();
             let must_panic = asserting && st["expect_assert"] == "panic";
@@ -103,6 +104,7 @@ fn main() {
             rep.count_op(if viol { "viol" } else { "good" }, 1);
             rep.evals += 1;
             let mut w = r;
+            if ill_conditioned(op, &r) { loose = true; }
             let res = catch(|| { let ok = step(op, &mut w); (ok, w) });
             match res {
                 Err(p) => {
@@ -128,7 +130,7 @@ fn main() {
                     }
                     writeln!(trace, "{{\"c\":{},\"k\":{},\"h\":\"{:016x}\"}}", n, k, digest(&r)).unwrap();
                     if want_q && k + 1 == c["chain"].as_array().unwrap().len() {
-                        writeln!(qtrace, "{{\"c\":{},\"k\":{},\"q\":{:?}}}", n, k, fixed(&r)).unwrap();
+                        writeln!(qtrace, "{{\"c\":{},\"k\":{},\"loose\":{},\"q\":{:?}}}", n, k, loose as u8, fixed(&r)).unwrap();
                     }
                 }
             }
